@@ -3,7 +3,6 @@ package c11
 import (
 	"fmt"
 	"math/big"
-	"os"
 	"sort"
 	"strings"
 	"sync"
@@ -42,6 +41,24 @@ func (s *stats) publish(run *vh.Run) {
 	for t, m := range s.cells {
 		run.Set(t, m)
 	}
+}
+
+// kindRank orders difference kinds so that the signature names the most telling one.
+func kindRank(k string) int {
+	order := []string{"staking:delegation", "staking:unbonding", "staking:redelegation", "staking:validator", "staking:", "bank:other-account", "bank:tx-sender",
+		"bank:", "distribution:pending-reward", "distribution:starting-info", "distribution:"}
+	for i, p := range order {
+		if strings.HasPrefix(k, p) {
+			return i
+		}
+	}
+	return len(order)
+}
+
+func opsOf(f *frame) []*nativeOp {
+	var ops []*nativeOp
+	f.ops(&ops)
+	return ops
 }
 
 func firstLine(s string) string {
@@ -431,6 +448,14 @@ func (w *world) checkTx(ob *vh.ObservedBlock, i int, p *plan) {
 		}
 	}
 	st.add("ops_by_method_callerkind_result", p.Method+"|"+cellKind+"|"+result, 1)
+	for _, op := range opsOf(p.Root) {
+		if op.Action == "transfer" && op.Choice != "" && expectChange {
+			st.add("transfer_validator_choice", op.Choice, 1)
+		}
+	}
+	if p.AmtClass == "all-self-delegation" && expectChange {
+		run.Count("validators_jailed_by_unbonding_self_delegation_through_precompile", 1)
+	}
 	run.Count("designated_ops_executed", 1)
 	run.Distinct("caller_kinds", p.CallerKind)
 	run.Distinct("methods", p.Method)
@@ -466,7 +491,12 @@ func (w *world) checkTx(ob *vh.ObservedBlock, i int, p *plan) {
 		for k := range kinds {
 			ks = append(ks, k)
 		}
-		sort.Strings(ks)
+		sort.Slice(ks, func(i, j int) bool {
+			if a, b := kindRank(ks[i]), kindRank(ks[j]); a != b {
+				return a < b
+			}
+			return ks[i] < ks[j]
+		})
 		prefix := "effect-differs-from-native:"
 		if !actualOK {
 			prefix = "failed-call-changed-state:"
@@ -593,16 +623,14 @@ func (w *world) checkViewTx(ob *vh.ObservedBlock, i int, p *plan) {
 	if rc.Status != 1 {
 		outcome = "refused"
 	}
-	st.add("views_by_method_route_outcome", p.View.Method+"|"+p.View.Route+"|"+outcome, 1)
+	st.add("views_by_method_outcome", p.View.Method+"|"+outcome, 1)
+	st.add("views_by_route_outcome", p.View.Route+"|"+outcome, 1)
 	run.Nontrivial("view:" + p.View.Method + "|" + p.View.Route + "|" + outcome)
 	if why != "" {
 		det["world"], det["height"], det["tx_sender"] = w.label, ob.Height, p.Sender.Addr.Hex()
 		run.Violation("view-differs-from-native-query:"+p.View.Method+":"+why, w.label, det)
 	}
 	if !ob.PostIsEndBlock[i] {
-		if os.Getenv("C11_DEBUG") != "" && (p.View.Method == "rewardsOf" || p.View.Method == "balanceOf") {
-			fmt.Println("DEBUG view", p.View.Method, p.View.Route, rc.Status, p.twin.View.Value, p.View.Acct.Hex(), w.delegationsOf(p.View.Acct), len(vh.Diff(ob.Pre[i].Dump, ob.Post[i].Dump)))
-		}
 		for _, ch := range vh.Diff(ob.Pre[i].Dump, ob.Post[i].Dump) {
 			if ch.Store != "acc" && ch.Store != "bank" && ch.Store != "evm" {
 				st.add("view_tx_store_writes", p.View.Method+"|"+ch.Store, 1)
@@ -635,7 +663,8 @@ func (w *world) ethcallViews(n int) {
 		if !ok {
 			outcome = "refused"
 		}
-		st.add("views_by_method_route_outcome", v.Method+"|"+v.Route+"|"+outcome, 1)
+		st.add("views_by_method_outcome", v.Method+"|"+outcome, 1)
+		st.add("views_by_route_outcome", v.Route+"|"+outcome, 1)
 		w.run.Nontrivial("view:" + v.Method + "|" + v.Route + "|" + outcome)
 		if why != "" {
 			det["world"], det["height"] = w.label, w.c.Height
